@@ -116,6 +116,42 @@ pub fn run_case(ctx: &Ctx, case: u64, ev: &mut Ev) {
     rng.big = crate::draw_big(ctx, &mut rng);
     let n = 1 + rng.below(if rng.big { 6 } else { 4 });
     let (p, near_miss) = system(&mut rng, n);
+    // 10 %: a twin of the system in which one row is written in tiny units (multiplied by 2^-60, an exact
+    // positive scaling): the same half-space, but every coefficient is below f64::EPSILON - still not a zero
+    // row. Fed to remove_tautologies and remove_zero_rows only (exact set comparison): remove_duplicate_rows and
+    // remove_redundant_row_constraints are known to mishandle such rows (known findings K3, K2).
+    if rng.chance(0.1) && !p.mat.is_empty() {
+        let mut pt = p.clone();
+        let i = rng.below(pt.mat.len());
+        let sc = 2f64.powi(-60);
+        for v in pt.mat[i].iter_mut() {
+            *v *= sc;
+        }
+        pt.bias[i] *= sc;
+        let syst = pt.sys();
+        let lpt = pt.to_poly();
+        let dt = json!({"n": n, "P": pt.json(), "note": "row written in tiny units"});
+        let outs: Vec<(&str, Result<Aff, String>)> = vec![
+            ("remove_tautologies", lib(case, "remove_tautologies (tiny units)", || Aff::from_poly(&lpt.remove_tautologies()))),
+            ("remove_zero_rows", lib(case, "remove_zero_rows (tiny units)", || Aff::from_poly(&lpt.remove_zero_rows()))),
+        ];
+        for (name, r) in outs {
+            match r {
+                Err(pm) => {
+                    ev.violation(case, &format!("c15:{}:panic", name), "", json!({"case": dt, "panic": pm}));
+                    return;
+                }
+                Ok(res) => match lpx::same_set(&syst, &res.sys()) {
+                    Ok(true) => ev.inc("tiny_unit_rows_handled"),
+                    Ok(false) => {
+                        ev.violation(case, &format!("c15:{}", name), "", json!({"case": dt, "problem": format!("{}: result {} denotes a different point set", name, res.json())}));
+                        return;
+                    }
+                    Err(_) => ev.skip("oracle-error"),
+                },
+            }
+        }
+    }
     let m = p.mat.len();
     let desc = json!({"n": n, "P": p.json()});
     ev.evaluations += 1;
@@ -379,6 +415,29 @@ pub fn run_case(ctx: &Ctx, case: u64, ev: &mut Ev) {
 }
 
 /// Re-execute the committed witness of known finding K1 for C15: returns Ok(true) if it still fails.
+pub const K2_KEY: &str = "K2:remove_redundant_row_constraints-drops-a-binding-row-written-in-tiny-units";
+pub const K3_KEY: &str = "K3:remove_duplicate_rows-takes-a-row-in-tiny-units-for-a-duplicate-of-a-zero-row";
+
+/// Known findings K2 / K3: re-execute the committed witness; true iff the function still changes the point set.
+pub fn k23_witness(w: &serde_json::Value) -> Result<bool, String> {
+    let mat: Vec<Vec<f64>> = serde_json::from_value(w["mat"].clone()).map_err(|e| e.to_string())?;
+    let bias: Vec<f64> = serde_json::from_value(w["bias"].clone()).map_err(|e| e.to_string())?;
+    let func = w["function"].as_str().ok_or("function")?.to_string();
+    let p = Aff { mat, bias };
+    let res: Aff = match func.as_str() {
+        "remove_redundant_row_constraints" => match lib(0, "remove_redundant_row_constraints (K2 witness)", || p.to_poly().remove_redundant_row_constraints())? {
+            Ok(rp) => Aff::from_poly(&rp),
+            Err(e) => return Err(e),
+        },
+        "remove_duplicate_rows" => Aff::from_poly(&lib(0, "remove_duplicate_rows (K3 witness)", || p.to_poly().remove_duplicate_rows())?),
+        _ => return Err("unknown function in witness".into()),
+    };
+    match lpx::same_set(&p.sys(), &res.sys()) {
+        Ok(same) => Ok(!same),
+        Err(e) => Err(e),
+    }
+}
+
 pub fn k1_witness(w: &serde_json::Value) -> Result<bool, String> {
     let mat: Vec<Vec<f64>> = serde_json::from_value(w["mat"].clone()).map_err(|e| e.to_string())?;
     let bias: Vec<f64> = serde_json::from_value(w["bias"].clone()).map_err(|e| e.to_string())?;
